@@ -134,8 +134,8 @@ BIT_STRING_encode_oer(const asn_TYPE_descriptor_t *td,
     }
 
     if(st->bits_unused) {
-        if(st->buf[st->size - 1] & (0xff << st->bits_unused)) {
-            fix_last_byte = 1;
+        if(st->buf[st->size - 1] & ~(0xff << st->bits_unused)) {
+            fix_last_byte = 1;  /* There is garbage in the unused bits */
         }
     }
 
